@@ -465,8 +465,20 @@ func createStrFunctions() { //nolint:funlen // we do have quite a few, yes.
 		repl := args[2].(object.String).Value
 		if len(repl) > 0 {
 			// Every match is replaced by the template: check the memory it takes before building it (not after).
-			matches := len(re.FindAllStringIndex(inp, -1))
-			object.MustBeOk((len(inp) + matches*len(repl)) / object.ObjectSize)
+			// At most one match per byte; only when that many would not fit are the matches counted (one by one:
+			// collecting them all would itself take more memory than the input).
+			if ok, _ := object.SizeOk((len(inp) + (len(inp)+1)*len(repl)) / object.ObjectSize); !ok {
+				matches := 0
+				for pos := 0; pos <= len(inp); {
+					loc := re.FindStringIndex(inp[pos:])
+					if loc == nil {
+						break
+					}
+					matches++
+					pos += max(loc[1], loc[0]+1)
+				}
+				object.MustBeOk((len(inp) + matches*len(repl)) / object.ObjectSize)
+			}
 		}
 		newStr := re.ReplaceAllString(inp, repl)
 		return object.String{Value: newStr}
